@@ -24,14 +24,14 @@ import vf
 SPECDIR = os.path.join(vf.SPEC, "http")
 TRACE_TLA = os.path.join(SPECDIR, "HttpRetryTrace.tla")
 TRACE_CFG = os.path.join(SPECDIR, "HttpRetryTrace.cfg")
-IMPL_INVS = ["AtMostOnce", "AttemptBound", "FramingNotRetried", "NoReuse", "OwnResponse", "LeaseExclusive", "NoStuck"]
+IMPL_INVS = ["AtMostOnce", "AttemptBound", "FramingNotRetried", "NoReuse", "OwnResponse", "LeaseExclusive", "LeaseWaitBounded", "NoStuck"]
 DEVS = {"Dev_RetryNonIdempotent": "AtMostOnce", "Dev_RetryFraming": "FramingNotRetried",
         "Dev_KeepAfterCloseSignal": "NoReuse", "Dev_KeepAfterSurplus": "NoReuse", "Dev_KeepAfterFailure": "NoReuse",
         "Dev_BudgetOffByOne": "AttemptBound", "Dev_PossiblySentIsNotSent": "AtMostOnce",
         "Dev_CaseFoldMethod": "AtMostOnce", "Dev_NoRecvTimeout": "NoStuck", "Dev_ClampedBodyRead": "NoReuse",
-        "Dev_IdleBytesKept": "OwnResponse", "Dev_BackoffClampsAttempt": "AttemptBound"}
+        "Dev_IdleBytesKept": "OwnResponse", "Dev_CloseLastOnly": "NoReuse", "Dev_LeaseWaitRestarts": "LeaseWaitBounded", "Dev_ZeroLengthFastPath": "NoReuse", "Dev_BackoffClampsAttempt": "AttemptBound"}
 ACTIONS = ["Start", "AcquireLease", "Reuse", "EvictIdle", "Miss", "ConnectFails", "ConnectResetEarly", "ConnectOk",
-           "SetSyncMode", "SendStale", "PickCached", "Send", "RecvFails", "RecvOk", "RetryDecision", "Finish"]
+           "SetSyncMode", "SendStale", "PickCached", "Send", "RecvFails", "RecvOk", "RetryDecision", "Finish", "LeaseTimeout", "Tick"]
 RT = 400          # requestTimeout of the client under test (ms); connectTimeout 200
 
 
@@ -39,6 +39,29 @@ def S(k, v="-", p="-"):
     return vf.Rec(k=k, v=v, p=p)
 
 
+def conn(ver, toks, sep=", "):
+    """one spelling of the Connection field of a response: the list elements as sent and how they are joined ("&" = a
+    second field line).  -> (variant name = the encoded field value, which the driver only decodes; the model's view)"""
+    enc = ("1" if ver == "1.1" else "0") + "~" + sep.join(toks).replace(" ", "_").replace("\t", "^")
+    return enc, vf.Rec(ver=ver, toks=list(toks))
+
+
+# Connection lists: close first / in the middle / last, with other connection options or hop-by-hop field names, without
+# and with optional white space, mixed case, empty elements, two field lines; lists without a close element (one that
+# merely contains the letters); HTTP/1.0 with and without keep-alive.  Which of them is a close signal is decided by
+# SignalsClose in HttpRetry.tla, not here.
+CONN = dict([conn("1.1", ["close", "X-Hop-Token"]), conn("1.1", ["close", "keep-alive"]),
+             conn("1.1", ["X-Hop-Token", "close", "keep-alive"]), conn("1.1", ["X-Hop-Token", "close"], ","),
+             conn("1.1", ["Close", "X-Hop-Token"], " , "), conn("1.1", ["keep-alive", "CLOSE"], ",\t"),
+             conn("1.1", ["close", ""], ","), conn("1.1", ["", "close"], ", "),
+             conn("1.1", ["close", "keep-alive"], "&"), conn("1.1", ["keep-alive", "close"], "&"),
+             conn("1.1", ["X-Close-Hint", "keep-alive"]), conn("1.1", ["keep-alive", "X-Hop-Token"]),
+             conn("1.1", ["X-Hop-Token", "closed"]),
+             conn("1.0", ["keep-alive", "X-Hop-Token"]), conn("1.0", ["X-Hop-Token"]), conn("1.0", ["close", "keep-alive"])])
+CONNSTEPS = [S("ok_conn", v) for v in CONN]
+# zero-length responses (Content-Length: 0, a chunked body that is only the last-chunk, 304) without and with surplus
+ZERO = [S("ok", "cl0"), S("ok", "chunked0"), S("ok_surplus", "cl0"), S("ok_surplus", "chunked0"), S("ok_surplus", "304"),
+        S("ok_latesurplus", "cl0", "h_s")]
 OK = S("ok", "cl")
 SUCCESS = [OK, S("ok", "chunked"), S("ok_connclose"), S("ok_connclose", "mixed"), S("ok_connclose", "list"), S("ok_surplus", "cl"), S("ok_surplus", "chunked"), S("ok_surplus", "204"),
            # surplus at the other arrival points: after the header block was read (headers | body+surplus; headers+part of
@@ -72,6 +95,7 @@ NOREUSE = [OK, S("ok_connclose"), S("ok_surplus", "cl"), S("silence"), S("full_c
 IDLE = [OK, S("ok_then_fin"), S("ok_connclose")]
 CONC = [OK, S("ok_connclose"), S("ok_surplus", "cl"), S("ok_closedelim"), S("ok_then_fin"), S("silence"), S("full_close"),
         S("resp_close", "cl", "body")]
+LEASE = [OK, S("silence"), S("resp_silence", "cl", "hdr")]
 ALLM = ["GET", "HEAD", "PUT", "DELETE", "POST", "PATCH", "get"]
 
 
@@ -81,9 +105,10 @@ def configs(thorough):
     return [
         dict(name="single", callers=[1], nreq=1, methods=ALLM, budgets=[0, 1, 2], steps=SUCCESS + FAULTS, oktail=[OK],
              maxfk=1, reuse=True, idle=False, take=None),
-        # every success variant (keep-alive, close signals, surplus, close-delimited ...) of every method followed by a request
-        dict(name="taint", callers=[1], nreq=2, methods=ALLM, budgets=[0], steps=SUCCESS, oktail=[OK], maxfk=1, reuse=True,
-             idle=False, take=None, later_methods=["GET", "POST"], later_steps=[OK]),
+        # every success variant (keep-alive, close signals in every spelling of the Connection list, surplus after bodies of
+        # length > 0 and = 0, close-delimited ...) of every method followed by a request
+        dict(name="taint", callers=[1], nreq=2, methods=ALLM, budgets=[0], steps=SUCCESS + CONNSTEPS + ZERO, oktail=[OK],
+             maxfk=1, reuse=True, idle=False, take=None, later_methods=["GET", "POST"], later_steps=[OK]),
         # the budget dimension beyond 2: every attempt fails after the request was sent (or before: refused), budgets up to 8;
         # the back-off of the calling thread is divided by 20 (interposed nanosleep) so that 100*2^a ms stays affordable
         dict(name="budget", callers=[1], nreq=1, methods=["GET", "PUT", "POST"], budgets=[0, 1, 2, 3, 4, 5, 6, 8],
@@ -101,6 +126,11 @@ def configs(thorough):
              maxfk=1, reuse=True, idle=True, take=q(16, None)),
         dict(name="conc", callers=[1, 2], nreq=1, methods=["GET", "POST"], budgets=[0, 1], steps=CONC, oktail=[OK],
              maxfk=1, reuse=True, idle=False, take=q(100, None)),
+        # leaseAcquireTimeout = 200 ms < requestTimeout = 3000 ms: caller 2 starts once caller 1's request has reached the
+        # peer (the model's Stagger order = the driver's) and has to give up on the lease while caller 1's peer is silent; a
+        # third thread keeps the client busy with requests to another host (each release wakes every lease waiter)
+        dict(name="lease", callers=[1, 2], nreq=1, methods=["GET", "POST"], budgets=[0, 1], steps=LEASE, oktail=[OK],
+             maxfk=1, reuse=True, idle=False, take=q(24, None), lat=200, rt=3000, only_with=None if thorough else "leaseto"),
     ]
 
 
@@ -114,11 +144,13 @@ def write_mc(ck, c, devs=(), emit=True, tag=""):
             vf.tla(set(c["callers"])), vf.tla(set(c["methods"])), vf.tla(set(c["budgets"]))))
         f.write("MCSteps == {%s}\nMCOkTail == {%s}\n" % (
             ",\n  ".join(vf.tla(s) for s in c["steps"]), ", ".join(vf.tla(s) for s in c["oktail"])))
+        f.write("MCConnHdr == %s\n" % vf.tla(CONN))
         f.write("MCLaterMethods == %s\nMCLaterSteps == {%s}\n====\n" % (
             vf.tla(set(c.get("later_methods", c["methods"]))), ",\n  ".join(vf.tla(s) for s in c.get("later_steps", c["steps"]))))
     consts = {"Callers": "<- MCCallers", "NReq": c["nreq"], "MethodSet": "<- MCMethods", "BudgetSet": "<- MCBudgets",
               "StepSet": "<- MCSteps", "LaterMethods": "<- MCLaterMethods", "LaterSteps": "<- MCLaterSteps", "OkTail": "<- MCOkTail", "MaxFaultKinds": c["maxfk"], "ReuseCfg": c["reuse"],
-              "AllowIdle": c["idle"], "EmitCases": emit}
+              "AllowIdle": c["idle"], "EmitCases": emit, "ConnHdr": "<- MCConnHdr",
+              "LeaseTO": bool(c.get("lat")), "Stagger": bool(c.get("lat"))}
     for dv in DEVS:
         consts[dv] = dv in devs
     cfg = os.path.join(d, mod + ".cfg")
@@ -129,21 +161,26 @@ def write_mc(ck, c, devs=(), emit=True, tag=""):
     return os.path.join(d, mod + ".tla"), cfg
 
 
-def step_text(s):
+def step_text(s, tn=None):
+    """tn: the taints the model computed for the step (ok_conn: the server is told whether the model sees a close signal)"""
     t = s["k"]
     if s["v"] != "-":
         t += ":" + s["v"]
     if s["p"] != "-":
         t += "@" + s["p"]
+    if s["k"] == "ok_conn" and tn is not None:
+        t += "@close" if "close_signal" in tn else "@keep"
     return t
 
 
 def case_of(script, c):
     """TLC terminal state (script: per caller a list of request records) -> (driver line body, prediction)"""
     reqs = [rq for caller in script for rq in caller]
-    body = " | ".join("%s %d %d %s" % (rq["m"], rq["b"], rq["pre"], ";".join(step_text(s) for s in rq["steps"]) or "-")
+    body = " | ".join("%s %d %d %s" % (rq["m"], rq["b"], rq["pre"], ";".join(step_text(s, t) for s, t in zip(rq["steps"], rq["tn"])) or "-")
                       for rq in reqs)
-    head = "reuse=%d rt=%d idle=%d conc=%d" % (1 if c["reuse"] else 0, RT, 1 if c["idle"] else 0, 1 if len(c["callers"]) > 1 else 0)
+    head = "reuse=%d rt=%d idle=%d conc=%d" % (1 if c["reuse"] else 0, c.get("rt", RT), 1 if c["idle"] else 0, 1 if len(c["callers"]) > 1 else 0)
+    if c.get("lat"):
+        head += " lat=%d" % c["lat"]
     if c.get("bo", 1) != 1:
         head += " bo=%d" % c["bo"]
     if c.get("rep"):
@@ -327,10 +364,11 @@ def judge(ck, name, lines, preds, execs, rerun=True):
     if rerun and todo:
         # A rejection is reported only if it shows again when the case is re-run at low parallelism (TimeBound and
         # FramingNotRetried depend on timely scheduling).  A sequential case is deterministic: 3 re-runs, >= 2 repeats.
-        # Two concurrent callers race for the lease by design: 10 re-runs, >= 1 repeat.
+        # Two concurrent callers race for the lease by design: 10 re-runs, >= 1 repeat (the lease family starts its callers
+        # in a fixed order: treated like a sequential case).
         relines, owner = [], []
         for j, (i, inv, line) in enumerate(todo):
-            conc = "conc=1" in lines[i]
+            conc = "conc=1" in lines[i] and "lat=" not in lines[i]    # (with lat= the driver starts the callers in order)
             need[i] = 1 if conc else 2
             for k in range(10 if conc else 3):
                 relines.append(lines[i])
@@ -399,6 +437,9 @@ def selftest_trace_spec(ck):
          [B, call(1, "GET", 0), cc(1, 1), sr(1, 1), ret(1), {"e": "SIdle", "c": 1}, call(2, "POST", 0), sr(1, 2), ret(2, rt=99), E]),
         ("surplus after the header block, connection reused", "NoReuse",
          [B, call(1, "GET", 0), cc(1, 1), sr(1, 1), ta(1, "surplus", 1), ret(1), call(2, "GET", 0), sr(1, 2), ret(2), E]),
+        ("lease time-out 200 ms, first attempt 2.9 s after the call", "LeaseBound",
+         [dict(B, lat=200, rt=3000, conc=1), call(1, "GET", 0), dict(cc(1, 0), t=5), dict(sr(1, 1), t=10), ta(1, "failure", 1),
+          dict(call(2, "POST", 0), t=20), ret(1, "other", 3000), dict(cc(2, 0), t=3015), dict(sr(2, 2), t=3020), ret(2, "ok", 3010), E]),
         ("waits longer than its timeouts", "TimeBound", [B, call(1, "GET", 0), cc(1, 1), sr(1, 1), ret(1, "hung", 13000), E]),
     ]
     def go(job):
@@ -427,14 +468,18 @@ def selftest_devs(ck):
     base = dict(name="dev", callers=[1], nreq=2, methods=["GET", "POST", "get"], budgets=[0, 1, 2], oktail=[OK], maxfk=1,
                 reuse=True, idle=False,
                 steps=[OK, S("ok_connclose"), S("ok_surplus", "cl"), S("ok_surplus", "cl", "h_bs"), S("ok_idle", "stale"),
+                       S("ok_surplus", "cl0"), CONNSTEPS[0], CONNSTEPS[10],
                        S("ok_then_fin"), S("refused"), S("acc_rst"),
                        S("send_fail", "-", "zero"), S("req_close", "-", "first"), S("full_close"), S("silence"), S("bad", "cl_te")])
 
     # the clamped attempt counter only shows for budgets >= 5 (and makes the state space infinite: TLC stops at the violation)
     big = dict(base, name="devbig", budgets=[5, 6], methods=["GET"], nreq=1, steps=[OK, S("full_close")])
 
+    lz = dict(base, name="devlease", callers=[1, 2], nreq=1, methods=["GET", "POST"], budgets=[0, 1], steps=[OK, S("silence")], lat=200)
+
     def go(dv):
-        tla_path, cfg = write_mc(ck, big if dv == "Dev_BackoffClampsAttempt" else base, devs=[dv], emit=False, tag="_" + dv)
+        tla_path, cfg = write_mc(ck, big if dv == "Dev_BackoffClampsAttempt" else lz if dv == "Dev_LeaseWaitRestarts" else base,
+                                 devs=[dv], emit=False, tag="_" + dv)
         return dv, tlc(tla_path, cfg, tag="C17_" + dv, workers=2, lib_dirs=[SPECDIR], xmx="2g")
     with cf.ThreadPoolExecutor(max_workers=5) as ex:
         for dv, r in ex.map(go, list(DEVS)):
@@ -484,12 +529,20 @@ def generate(ck, thorough, cfgs=None):
         if not cases:
             raise vf.Infra("generator produced zero cases for configuration " + c["name"])
         keys = sorted(cases)
+        if c.get("only_with"):       # quick tier: the cases in which the model takes the step this configuration is about
+            keys = [k for k in keys if c["only_with"] in k]
+            if not keys:
+                raise vf.Infra("generator produced no case with %s in configuration %s" % (c["only_with"], c["name"]))
         total = len(keys)
         if c["take"] is not None and c["take"] < total:
             keys = ck.rng.sample(keys, c["take"])
         ck.note("TLC %s: %s -> %d distinct cases, %d run" % (c["name"], r.summary(), total, len(keys)))
-        if c["take"] is None:
-            used = set(t for k in keys for w in k.split("|")[1:] for t in w.split()[3].split(";"))
+        if c["name"] == "taint":
+            for cls in ("@close", "@keep"):
+                if not any(t.startswith("ok_conn:") and t.endswith(cls) for k in keys for w in k.split("|")[1:] for t in w.split()[3].split(";")):
+                    raise vf.Infra("no Connection spelling is classified %s by the model" % cls)
+        if c["take"] is None and not c.get("only_with"):
+            used = set(re.sub(r"^(ok_conn:[^@]*)@.*", r"\1", t) for k in keys for w in k.split("|")[1:] for t in w.split()[3].split(";"))
             missing = [step_text(s) for s in c["steps"] if step_text(s) not in used]
             if missing:
                 raise vf.Infra("generator produced no case with step(s) %s in configuration %s" % (missing, c["name"]))
@@ -537,6 +590,14 @@ def run(ck):
         t2 = time.time()
         judge(ck, name, keys, preds, execs)
         ck.note("%s: driver %.0fs, validation %.0fs" % (name, t2 - t1, time.time() - t2))
+        if name == "lease":
+            oth = sum(e.get("oth", 0) for st, evs in execs for e in evs if e["e"] == "End")
+            gaveup = sum(1 for st, evs in execs if any(e["e"] == "Ret" and e["r"] == 2 and e["res"] != "ok" for e in evs)
+                         and not any(e["e"] == "SReq" and e["r"] == 2 for e in evs))
+            if oth == 0:
+                raise vf.Infra("lease family is vacuous: no other-host exchange completed while callers waited for the lease")
+            ck.note("lease: %d other-host exchanges completed while callers waited for the lease; in %d of %d executions the "
+                    "second caller failed without putting a byte on the wire" % (oth, gaveup, len(execs)))
         # evidence sample: the first execution of the group with a retry or a taint
         j = next((i for i, (st, evs) in enumerate(execs) if any(e["e"] == "STaint" for e in evs) or
                   sum(1 for e in evs if e["e"] == "CConn") > sum(1 for e in evs if e["e"] == "Call")), 0)
